@@ -20,13 +20,13 @@ import (
 
 const header = "From CSS Require Import Lib.Base Lib.Cases Model.Manifest Model.ManifestCases.\nFrom Coq Require Import Init.Byte."
 
-// finding ids (KNOWN_FINDINGS.json)
+// finding ids (KNOWN_FINDINGS.json, open).  Repaired and therefore ordinary
+// failures when they come back: C18-bg10-signbpm-cut (ee4d7c9),
+// C18-binding-failopen (24a2a40), the DecryptPrivKey panic on short input (4423a4c).
 const (
-	fBg10Cut     = "C18-bg10-signbpm-cut"
-	fNormalised  = "C18-verify-reserialised-normalised-fields"
-	fHashLabel   = "C18-cbnt-sign-hash-label"
-	fNullPkHash  = "C18-cbnt-km-null-pkhash"
-	fBindingOpen = "C18-binding-failopen"
+	fNormalised = "C18-verify-reserialised-normalised-fields"
+	fHashLabel  = "C18-cbnt-sign-hash-label"
+	fNullPkHash = "C18-cbnt-km-null-pkhash"
 )
 
 type signedFile struct {
@@ -36,7 +36,7 @@ type signedFile struct {
 	lay      layout
 	desc     shapeDesc
 	verifies bool
-	by       string // "suite" or "harness" (BG 1.0 BPM signed over the verified range by the harness)
+	by       string // "suite", "artifact" or "harness" (BG 1.0 BPM signed with fiano's SetSignature over [:PMSEOffset()], independently of SignBPM)
 }
 
 type run struct {
@@ -220,9 +220,9 @@ func (r *run) signOne(b *bootguard.BootGuard, doc int, scheme, hashName, keyName
 		c.OracleOK()
 	case vout == oOk && !raw:
 		c.OracleFail(idx, "suite accepts its own signed file although the stored signature is not valid (crypto/rsa) for the stored signed portion", "bootguard.Verify"+docName(doc), input)
-	case gen == 1 && doc == 1 && sl == pre.pmseks && sl != signedEnd && vout == oErr:
-		r.known[fBg10Cut]++
-		c.OracleFailKnown(idx, fBg10Cut, fmt.Sprintf("BG 1.0 BPM signed by the suite does not verify with the suite: SignBPM signed the first %d bytes (PMSE.KeySignatureOffset()), VerifyBPM checks the first %d (PMSEOffset())", sl, signedEnd), "bootguard.SignBPM", input)
+	case gen == 1 && doc == 1 && sl != signedEnd && vout != oOk:
+		// the repaired defect C18-bg10-signbpm-cut (or a relative of it): an ordinary failure
+		c.OracleFail(idx, fmt.Sprintf("BG 1.0 BPM signed by the suite does not verify with the suite: SignBPM signed the first %v bytes (PMSE.KeySignatureOffset() = %d), VerifyBPM checks the first %d (PMSEOffset()); the signature must cover the manifest up to the signature element", lens, pre.pmseks, signedEnd), "bootguard.SignBPM", input)
 	case gen == 2 && vout == oErr && sl == signedEnd && lay.hashAlg != schemeHashOf(sch) && pre.pkhashNullKM(doc) == false:
 		r.known[fHashLabel]++
 		c.OracleFailKnown(idx, fHashLabel, fmt.Sprintf("CBnT %s signed with %s/%s does not verify: the signature is over the %s digest the scheme hard-wires but Signature.HashAlg says %#x", docName(doc), scheme, hashName, map[int]string{algSHA256: "SHA256", algSHA384: "SHA384"}[schemeHashOf(sch)], lay.hashAlg), "bootguard.Sign"+docName(doc), input)
